@@ -8,6 +8,7 @@
 import YtkProofs.Pipeline
 import YtkProofs.PipelineWF
 import YtkProofs.PipelineLoop
+import YtkProofs.PipelineData
 
 namespace Ytk.Pipeline
 
@@ -246,5 +247,30 @@ theorem acts_basic_fuel : ∀ (as : List Action), actsBasic as = true →
     · exact h1 n (by omega) st
     · exact h2 c hc n (by omega) st
 end
+
+/-! ## binding and unbinding a top-level key (forEach variable, single-key call arguments) -/
+
+/-- binding a fresh key and removing it again gives the map back -/
+theorem erase_insert_fresh {α : Type} {m : AMap α} (hs : AMap.Sorted m) {k : String} (a : α)
+    (h : AMap.get? m k = none) : AMap.erase (AMap.insert m k a) k = m := by
+  apply AMap.ext_of_sorted (AMap.sorted_erase (AMap.sorted_insert hs k a) k) hs
+  intro x
+  by_cases hx : x = k
+  · subst hx
+    rw [AMap.get?_erase_self (AMap.sorted_insert hs x a), h]
+  · rw [AMap.get?_erase_ne _ hx, AMap.get?_insert_ne _ _ hx]
+
+/-- strictly sorted keys are pairwise distinct -/
+theorem sorted_keys_nodup {α : Type} : ∀ {m : AMap α}, AMap.Sorted m → (m.map (·.1)).Nodup
+  | [], _ => List.nodup_nil
+  | (k, v) :: m, h => by
+    cases h with
+    | cons hgt hs =>
+      simp only [List.map_cons, List.nodup_cons, List.mem_map, not_exists, not_and]
+      refine ⟨?_, sorted_keys_nodup hs⟩
+      intro p hp he
+      have := hgt p hp
+      rw [he] at this
+      exact absurd this (String.lt_irrefl _)
 
 end Ytk.Pipeline
